@@ -125,7 +125,7 @@ func c08n(c *c08Ctx, quick, thorough int, sequential bool) int {
 }
 
 func runC08(r *ev.Run) {
-	r.Rule = "hostile bytes to every packet-facing layer. Synchronous entry points (address parsers, key parsers, peer-id text, the five demultiplexers, P2PKE Session.Deliver in every handshake state and role, Channel.Deliver with 0-3 occupied slots, DHT handlers and cache calls) are called in-process with panic capture; layers that run in library goroutines (fragswarm, mbapp tell/ask/reply paths, multiplexers, p2pkeswarm) sit on the harness's wire transport (quicswarm faces a raw quic-go client that authenticates honestly and then writes hostile frames: length > mtu, length > remaining, zero, half a header, boundary lengths, stream reset mid-frame, oversize and reset uni-streams; sshswarm faces a raw x/crypto/ssh client that authenticates honestly and then sends global requests with odd names and empty / MTU+-1 / 256 KiB payloads, channel opens and abrupt reconnects) and each input is appended to an on-disk log before it is injected, the child process being the crash detector; generators: uniform random, structure-aware field mutations of genuine packets (every header field set to boundary values, over-long / truncated varints, wrong body lengths), contradiction sequences (a first packet creating reassembly state followed by packets with the same key whose part count, index, total size or body length disagree) and bit-flips/truncations; after each batch one valid message must still get through every layer. non-trivial = input got past the layer's first length check; distinct = (layer, generator, field/value class)"
+	r.Rule = "hostile bytes to every packet-facing layer. Synchronous entry points (address parsers, key parsers, peer-id text, the five demultiplexers, P2PKE Session.Deliver in every handshake state and role, Channel.Deliver with 0-3 occupied slots, DHT handlers and cache calls) are called in-process with panic capture (the DHT handlers also from 8 goroutines at once on one node while peers are added and removed); layers that run in library goroutines (fragswarm, mbapp tell/ask/reply paths, multiplexers, p2pkeswarm) sit on the harness's wire transport (quicswarm faces a raw quic-go client that authenticates honestly and then writes hostile frames: length > mtu, length > remaining, zero, half a header, boundary lengths, stream reset mid-frame, oversize and reset uni-streams; sshswarm faces a raw x/crypto/ssh client that authenticates honestly and then sends global requests with odd names and empty / MTU+-1 / 256 KiB payloads, channel opens and abrupt reconnects) and each input is appended to an on-disk log before it is injected, the child process being the crash detector; generators: uniform random, structure-aware field mutations of genuine packets (every header field set to boundary values, over-long / truncated varints, wrong body lengths), contradiction sequences (a first packet creating reassembly state followed by packets with the same key whose part count, index, total size or body length disagree) and bit-flips/truncations; after each batch one valid message must still get through every layer. non-trivial = input got past the layer's first length check; distinct = (layer, generator, field/value class)"
 	g := rng.New(r.Seed, "C08", fmt.Sprint(r.Batch))
 	c := &c08Ctx{r: r, g: g}
 	if r.OutDir != "" {
